@@ -365,9 +365,12 @@ func c36Build(t *testing.T, base string) *c36Corpus {
 		if ri%2 == 1 {
 			repoURL = s.add("https://example.com/", next(), "/tree")
 		}
+		if ri == 2 {
+			repoURL = s.add(" \tjavascript:alert(1)//", next(), "")
+		}
 		fileTpl := s.add("https://example.com/f/", nextTpl(), "/{{.Version}}/{{.Path}}")
 		if ri == 2 {
-			fileTpl = s.add("", 2, "//{{.Path}}") // javascript: scheme
+			fileTpl = s.add("javascript:alert(1)//", nextTpl(), "/{{.Path}}") // javascript: scheme
 		}
 		if ri == 3 {
 			fileTpl = [2]string{"", ""} // local print links
@@ -375,7 +378,7 @@ func c36Build(t *testing.T, base string) *c36Corpus {
 		fragTpl := s.add("#L{{.LineNumber}}", nextTpl(), "")
 		commitTpl := s.add("https://example.com/c/", nextTpl(), "/{{.Version}}")
 		if ri == 2 {
-			commitTpl = s.add("", 2, "//{{.Version}}")
+			commitTpl = s.add("JaVaScRiPt:alert(1)//", nextTpl(), "/{{.Version}}")
 		}
 		br := [][2]string{s.add("br-", next(), ""), s.add("", next(), "")}
 		brv := [][2]string{s.add("v", next(), ""), s.add("v", next(), "")}
@@ -456,6 +459,9 @@ func (c *c36Corpus) requests() []c36Req {
 	same("corpus", "results", "/search?q=needle&ctx=1&debug=1&num=7")
 	same("corpus", "results", "/search?q=needle+or+before&num=3")
 	same("corpus", "results", "/search?q=f:dir1+needle")
+	// the match itself is payload text: the benign corpus has no such matches, so no twin comparison
+	rs = append(rs, c36Req{"solo", "results", [2]string{"/search?q=" + url.QueryEscape(`<[a-z]+>`) + "&num=50", "/search?q=needle"}})
+	rs = append(rs, c36Req{"solo", "results", [2]string{"/search?q=" + url.QueryEscape(`alert\(1\)`) + "&ctx=1", "/search?q=needle"}})
 	same("corpus", "repolist", "/search?q=r:")
 	same("corpus", "repolist", "/search?q=r:org&order=revname&num=2")
 	same("corpus", "repolist", "/search?q=r:r1&order=size")
@@ -520,6 +526,10 @@ func TestVerif_C36_Pages(t *testing.T) {
 		}
 		for _, rq := range c.requests() {
 			pair := [2]int{id, id + 1}
+			twin := [2]int{id + 1, id}
+			if rq.kind == "solo" {
+				twin = pair
+			}
 			for v := 0; v < 2; v++ {
 				rec := httptest.NewRecorder()
 				req := httptest.NewRequest("GET", rq.path[v], nil)
@@ -542,7 +552,7 @@ func TestVerif_C36_Pages(t *testing.T) {
 				if len(head) > 60 {
 					head = head[:60]
 				}
-				tr.Emit(c36M{"ev": "page", "id": pair[v], "twin": pair[1-v], "variant": []string{"payload", "benign"}[v],
+				tr.Emit(c36M{"ev": "page", "id": pair[v], "twin": twin[v], "variant": []string{"payload", "benign"}[v],
 					"kind": rq.kind, "tmpl": rq.tmpl, "print": print, "status": res.StatusCode, "html": isHTML,
 					"nosniff": res.Header.Get("X-Content-Type-Options") == "nosniff",
 					"head": strings.ToValidUTF8(head, "?"),
